@@ -674,7 +674,6 @@ class Interp:
         return True
 
     def exec_try(self, st, frame, pc):
-        snap = self.snapshot(frame)
         try:
             live = self.exec_block(st.body, frame, pc)
         except SymRaise as e:
@@ -688,7 +687,7 @@ class Interp:
                         else:
                             continue
                 if exc_matches(e.exc, hn):
-                    self.restore(snap)
+                    # side effects made before the exception stay (Python does not roll them back)
                     if h.name:
                         frame.vars[h.name] = self.new_obj(f"<exc {e.exc}>")
                     live = self.exec_block(h.body, frame, pc)
@@ -804,6 +803,10 @@ class Interp:
             return self.lib.binop(self, ast.Mult(), to_expr(-1), v)
         if isinstance(n.op, ast.UAdd):
             return v
+        if isinstance(n.op, ast.Invert):
+            from . import peg
+            if isinstance(v, peg.PE):
+                return peg.NotAny(v)
         raise AnalysisError("unary op")
 
     def e_BoolOp(self, n, f):
